@@ -26,6 +26,7 @@ def cases(seed, tier):
     rng = random.Random(seed * 1000003 + 4)
     for i in range(n):
         cid = "C04-%d-%d" % (seed, i)
+        hooks, hspec = None, {}
         if i % 10 == 9:
             args = {"service": "foo.service"}
             if rng.random() < 0.7:
@@ -42,14 +43,21 @@ def cases(seed, tier):
                 args["kernelkill"] = "true"
             if rng.random() < 0.5:
                 args["post_action_delay"] = str(rng.choice([0, 1, 2, 4]))
-            cfg = KG.kill_config(plugin, args, {"post_action_delay": str(rng.choice([0, 1, 3, 6]))})
-        nticks = rng.randint(4, 6)
+            rs_extra = {"post_action_delay": str(rng.choice([0, 1, 3, 6]))}
+            if rng.random() < 0.3:
+                # a prekill hook that needs 1-3 more ticks (or finishes at once / never, then the window closes): the kill is
+                # performed by the resume path on a later tick, dry or not
+                hooks = [{"name": "v_hook", "args": {"id": "h0", "cgroup": rng.choice(["wl,wl/*,wl/*/*,wl/*/*/*", "wl/*", "/"])}}]
+                hspec = {"h0": [{"polls": rng.choice([0, 1, 1, 2, 3, -1])} for _ in range(6)]}
+                rs_extra["prekill_hook_timeout"] = str(rng.choice([2, 5, 30]))
+            cfg = KG.kill_config(plugin, args, rs_extra, hooks=hooks)
+        nticks = rng.randint(4, 6) + (2 if hooks else 0)
         ticks = [{"step_ns": rng.choice([1, 1, 2, 3]) * 10**9} for _ in range(nticks)]
-        wet = KG.base_scn(cid + "-wet", cgs, cfg, ticks=ticks)
+        wet = KG.base_scn(cid + "-wet", cgs, cfg, ticks=ticks, hooks=hspec)
         dry = copy.deepcopy(wet)
         dry["id"] = cid + "-dry"
         dry["config"]["rulesets"][0]["actions"][1]["args"]["dry"] = "true"
-        yield core.Case(cid, [wet, dry], {"plugin": plugin, "args": args})
+        yield core.Case(cid, [wet, dry], {"plugin": plugin, "args": args, "hook": bool(hooks)})
 
 
 def allowed_first(scn, meta, t0):
@@ -120,7 +128,11 @@ def judge(case, results):
     if len(dl) != 1 or not dl[0].group(4):
         v.bad("dry-log", plugin, "tick %d: dry run kmsg lines %s (expected exactly one `(dry)` line)" % (t0, d0.kmsg))
         return v
-    firsts = allowed_first(case.scns[0], case.meta, t0)
+    # the victim was chosen on the tick its chain started (earlier than t0 when a prekill hook was pending in between)
+    tsel = max((i.tick for i in winv if i.tick <= t0 and i.pre is not None), default=t0)
+    if tsel < t0:
+        v.count("kill_resumed_after_hook")
+    firsts = allowed_first(case.scns[0], case.meta, tsel)
     if firsts is None or len(firsts) != 1:
         v.count("dontcare_tied_first_choice")
     elif dl[0].group(1) != wet_first.attempts[0].victim:
